@@ -300,15 +300,25 @@ func checkPackage(res *core.Result, u *gengotypes.Universe, p gengotypes.Package
 			if strings.Contains(fn, "go-build") {
 				continue // generated cgo files live in the build cache
 			}
-			if got := u.LocateInPackage(f.Package); got != p {
+			var got gengotypes.Package
+			var srcDir string
+			if pk, pv, _ := core.Guard(func() { srcDir = p.SourceDir() }); pk {
+				fail("sourcedir", "SourceDir panics", "SourceDir() panicked: %v", pv)
+				continue
+			}
+			if pk, pv, _ := core.Guard(func() { got = u.LocateInPackage(f.Package) }); pk {
+				fail("locate", "LocateInPackage panics", "LocateInPackage(pos in %s) panicked: %v", fn, pv)
+				continue
+			}
+			if got != p {
 				gp := "<nil>"
 				if got != nil {
 					gp = got.Pkg().Path()
 				}
 				fail("locate", "LocateInPackage", "LocateInPackage(pos in %s) = %s", fn, gp)
 			}
-			if d := filepath.Dir(fn); p.SourceDir() != d {
-				fail("sourcedir", "SourceDir", "SourceDir() = %q, files live in %q", p.SourceDir(), d)
+			if d := filepath.Dir(fn); srcDir != d {
+				fail("sourcedir", "SourceDir", "SourceDir() = %q, files live in %q", srcDir, d)
 			}
 			res.Inc("file_locations_compared")
 		}
@@ -380,15 +390,30 @@ func (p *prop) runSynthetic(c core.Case, w *core.Worker, res *core.Result) {
 	c.Decode(&pa)
 	r := rand.New(rand.NewSource(c.Seed))
 	for i := 0; i < pa.N; i++ {
-		m, err := fixture.New(w.Scratch, fmt.Sprintf("c13-%d-%d", c.ID, i), "example.com/c13", "1.24")
+		// three replaced dependency modules: a sibling directory (path longer than the replacement), a nested module
+		// inside the tree whose path extends the main module's, and one whose module path is short (replacement
+		// directory path longer than the import path); each with a root package and a package two levels down
+		extra := "\nrequire (\n\texample.com/dep v0.0.0\n\texample.com/c13/tools v0.0.0\n\tx.io/d v0.0.0\n)\n\nreplace (\n\texample.com/dep => ./_deps/dep\n\texample.com/c13/tools => ./tools\n\tx.io/d => ./_deps/some/much/longer/directory/name/than/the/path\n)\n"
+		m, err := fixture.New(w.Scratch, fmt.Sprintf("c13-%d-%d", c.ID, i), "example.com/c13", "1.24", extra)
 		if err != nil {
 			res.Inconclusive = append(res.Inconclusive, err.Error())
 			return
 		}
+		depPkgs := []string{}
+		for mp, dir := range map[string]string{"example.com/dep": "_deps/dep", "example.com/c13/tools": "tools", "x.io/d": "_deps/some/much/longer/directory/name/than/the/path"} {
+			m.MustWrite(filepath.Join(dir, "go.mod"), "module "+mp+"\n\ngo 1.24\n")
+			m.MustWrite(filepath.Join(dir, "root.go"), "package "+filepath.Base(mp)+"\n\n// Anchor is referenced by importers.\ntype Anchor struct{ N int }\n\nfunc (a Anchor) Get() int { return a.N }\n")
+			m.MustWrite(filepath.Join(dir, "sub/leaf/leaf.go"), "package leaf\n\nimport up \""+mp+"\"\n\n// Anchor is referenced by importers.\ntype Anchor struct{ Up up.Anchor }\n\nfunc (a *Anchor) Get() int { return a.Up.N }\n")
+			m.MustWrite(filepath.Join(dir, "sub/leaf/more.go"), "package leaf\n\nconst K = 1\n")
+			depPkgs = append(depPkgs, mp, mp+"/sub/leaf")
+		}
+		sort.Strings(depPkgs)
 		o := synth.Opts{NTypes: 6 + r.Intn(8), Methods: true, Clash: true, Docs: true, TagKeys: []string{"gengo:x"}, TagValues: []string{"", "false"}, PkgTagProb: 30}
 		var pkgs []*synth.Package
 		// c imports nothing, b imports c, a imports b and c (registration order of dependencies matters for Imports())
-		pc := synth.Generate(r, "pc", "z/pc", "example.com/c13/z/pc", o)
+		oc := o
+		oc.Imports = depPkgs
+		pc := synth.Generate(r, "pc", "z/pc", "example.com/c13/z/pc", oc)
 		ob := o
 		ob.Imports = []string{pc.Path}
 		pb := synth.Generate(r, "pb", "pb", "example.com/c13/pb", ob)
@@ -431,6 +456,21 @@ func (p *prop) runSynthetic(c core.Case, w *core.Worker, res *core.Result) {
 			res.Count("local_declarations_seen", int64(st.locals))
 			res.Count("generic_types_with_methods_seen", int64(st.genericMethods))
 			res.Count("alias_receiver_methods_seen", int64(st.aliasRecv))
+		}
+		// the packages of the replaced modules
+		for _, dp := range depPkgs {
+			gp := u.Package(dp)
+			if gp == nil {
+				res.Fail("universe-missing", "synthetic replaced module", "Universe.Package("+dp+") is nil although it is in the import closure", nil)
+				continue
+			}
+			if gp.Module() == nil || gp.Module().Replace == nil {
+				res.Inconclusive = append(res.Inconclusive, "dependency package is not reported as part of a replaced module: "+dp)
+				continue
+			}
+			res.Evals++
+			checkPackage(res, u, gp, "synthetic replaced module")
+			res.Count("replaced_module_packages_checked", 1)
 		}
 		if i == 0 {
 			res.Sample(map[string]any{"synthetic_module": "pa -> pb -> z/pc", "patterns": patterns, "pa_types": len(pa2.Types), "local_types": pa2.LocalTyps, "type_params": pa2.TypeParms}, 1)
